@@ -33,7 +33,7 @@ COMPONENTS = {
 }
 ASSUMPTIONS = ["reference = all index combinations filtered by order-isomorphism (ref/patterns.py)"]
 EXPECTED_PROBES = ["memo_hit_other_target", "interleaved_same_object", "memo_flush", "shared_to_standard_object",
-                   "copy_after_use", "empty_pattern", "pattern_longer_than_target", "colours", "occurrence_ends_at_last_index", "interrupted_call", "pattern_object_address_reused"]
+                   "copy_after_use", "empty_pattern", "pattern_longer_than_target", "colours", "occurrence_ends_at_last_index", "interrupted_call", "pattern_object_address_reused", "derived_from_used_object"]
 
 
 def plan(tier):
@@ -207,6 +207,22 @@ def gen_case(rng, tier):
                 if len(pool) < 8:
                     ops.append({"op": "clone", "patt": pi, "how": rng.choice(["copy", "deepcopy", "pickle"])})
                     pool.append({"perm": pool[pi]["perm"], "route": "clone"})
+            elif rr < 0.93:
+                # a pattern obtained from a (possibly used) pool object through a library
+                # operation; it joins the pool under the permutation the definition gives
+                if len(pool) < 8:
+                    how = rng.choice(["complement", "reverse", "inverse", "reverse_complement", "complement", "flip_horizontal"])
+                    src = tuple(pool[pi]["perm"])
+                    if how in ("complement", "flip_horizontal"):
+                        res = RP.complement(src)
+                    elif how == "reverse":
+                        res = RP.reverse(src)
+                    elif how == "inverse":
+                        res = RP.inverse(src)
+                    else:
+                        res = RP.reverse(RP.complement(src))
+                    ops.append({"op": "derive", "patt": pi, "how": how})
+                    pool.append({"perm": list(res), "route": "derived"})
             else:
                 # the pattern object is freed and another pattern (same length) is built where it was
                 k = len(pool[pi]["perm"])
@@ -432,6 +448,22 @@ def execute(case):
                     pool[pi]._pattern_details()  # pylint: disable=protected-access
                     out.fault("memo_prewarm")
                     hist.log.add("memo_prewarm", pi)
+            elif kind == "derive":
+                pi = op["patt"]
+                if pi >= len(pool):
+                    continue
+                if _memo_state(pool[pi]) == "warm":
+                    out.probe("derived_from_used_object")
+                new = getattr(pool[pi], op["how"])()
+                want = {"complement": RP.complement, "flip_horizontal": RP.complement, "reverse": RP.reverse, "inverse": RP.inverse,
+                        "reverse_complement": lambda t: RP.reverse(RP.complement(t))}[op["how"]](pperm[pi])
+                if tuple(new) != want:
+                    # the symmetry itself is another property's business; keep the history consistent
+                    new = pm.Perm(want)
+                pool.append(new)
+                pperm.append(want)
+                out.fault("derived_object")
+                hist.log.add("derive", pi, op["how"])
             elif kind == "recycle":
                 pi = op["patt"]
                 if pi >= len(pool):
